@@ -96,6 +96,8 @@ def fmt_value(v):
         h, rem = divmod(rem, 3600)
         m, sec = divmod(rem, 60)
         if rem == 0 and h == 0 and d:
+            if d % 7 == 0:
+                return {}, f"{sign}P{d // 7}W"           # whole weeks in the week form (RFC 5545 3.3.6)
             return {}, f"{sign}P{d}D"
         t = f"T{h}H{m}M{sec}S"
         return {}, f"{sign}P{d}D{t}" if d else f"{sign}P{t}"
